@@ -71,6 +71,11 @@ CHECKS = {
                   "Tie: generated well-formed documents (metadata in legal order, 1-3 models, interleaved/blank chain ids with TER, negative and inserted residue numbers, mixed case, partial and full altlocs, ANISOU, DBREF/SEQADV/MODRES, random justification, CRLF) x levels, compared on the full canonical dump (hierarchy, every atom field, metadata, bonds, diagnostics with line numbers); every single-field corruption (blank, garbage, truncation) of numeric ATOM fields; a 100 050-atom wrap document. Oracle: independent column-slicing reference reader.",
              note="PARTIAL: the grouping / wrap / occupancy-sum statements are decided by the correspondence and the independent reference reader, not yet by theorems. SEQRES validation is not modelled (inputs with SEQRES are compared on totality only). Float parsing of texts with more than 6 decimals is compared by outcome class only.",
              technique="Lean 4 model of the reader + theorems on field exactness and the gate + differential correspondence + independent reference reader", ref="DESIGN §7 C01"),
+ 'C05': dict(text="Theorem (C05_context_lines, by induction over the input lines with an invariant on the parser state and through every post-processing step): every diagnostic the reader returns, with a structure or as a rejection list, quotes for each line-anchored context the text that stands at the reported line number of the input. "
+                  "Totality of the model is by construction (after the repairs every slice in the code is str::get / slice::get or under a length guard and the model uses exactly those partial primitives); absence of panics IN THE CODE is decided by fault enumeration: every prefix of a canonical line of each of 21 record types, every single-column substitution by 9 character classes (blank, digit, letter, signs, dot, 2-byte, NUL, U+2028), insertion and deletion, multi-fault mutations of generated files (line drop/duplicate/swap, control and non-ASCII characters, nan/inf/1e400, invalid UTF-8, CRLF), x option flags x levels; "
+                  "outcome class, diagnostics multiset with line numbers and (when accepted) the full dump are compared with the Lean reader model; Display/Debug of every diagnostic is called; quoted lines are compared with the input.",
+             note="level claimed = proof for the line-number statement, fault_enumeration for 'never panics' (recorded in the evidence); SEQRES validation is not modelled (those inputs are checked for totality and line quoting only); BufRead::lines and the Display text itself are not modelled.",
+             technique="Lean 4 invariant proof over the reader model + fault enumeration with differential correspondence", ref="DESIGN §7 C05"),
 }
 NOT_APPLICABLE = {}
 ALL = ['C%02d' % i for i in range(1, 19)]
